@@ -25,3 +25,5 @@ Definition h_remove := @erase HK HV hltb.
 Definition h_lookup := @lookup HK HV hltb.
 Definition h_from := @from HK HV hltb.
 Definition h_check_order := check_order.
+Definition h_search_ge := @search_ge HK hltb.
+Definition h_search_le := @search_le HK hltb.
